@@ -40,14 +40,14 @@ Section FixedTags.
   (* the lines the engine produces for the file (before createoutput's TAB filter) *)
   Definition fresh_x (e : elements) : list string := flat_map (ref_item16 e) (strip t).
 
-  Theorem wf_fresh_x e : names_ok_x e = true -> user_lines_plain e (strip t) = true -> wf_fresh_file (fresh_x e) = true.
+  Theorem wf_fresh_x e : names_ok_x (strip t) e = true -> user_lines_plain e (strip t) = true -> wf_fresh_file (fresh_x e) = true.
   Proof.
-    intros H Hu. unfold names_ok_x in H. apply andb_prop in H as [Hn Hd].
-    exact (fresh_of_template_x e (strip t) (names_plain_fine e Hn) Ht Hu (dyn_plain_of_names e (strip t) Hdyn Hd) Hi (Hk e)).
+    intros H Hu. unfold names_ok_x in H. apply andb_prop in H as [H Hsg]. apply andb_prop in H as [Hn Hd].
+    exact (fresh_of_template_x e (strip t) (names_plain_fine e Hn) Ht Hu (dyn_plain_of_names e (strip t) Hdyn Hd Hsg) Hi (Hk e)).
   Qed.
 
   Theorem wf_out_x m (a : usertags) :
-    names_ok_x (with_user a (elements_of_model m)) = true -> user_lines_plain (with_user a (elements_of_model m)) (strip t) = true ->
+    names_ok_x (strip t) (with_user a (elements_of_model m)) = true -> user_lines_plain (with_user a (elements_of_model m)) (strip t) = true ->
     wf_elements16 t (with_user a (elements_of_model m)) = true ->
     generate_file m dict0 a lines = Some (concat_lines (map tab4 (fresh_x (with_user a (elements_of_model m)))))
     /\ wf_fresh_file (fresh_x (with_user a (elements_of_model m))) = true.
@@ -57,7 +57,7 @@ Section FixedTags.
   Qed.
 
   Theorem fixed_point_x e path (u : string -> list string) :
-    names_ok_x e = true -> user_lines_plain e (strip t) = true -> (forall k, block_ok (u k) = true) ->
+    names_ok_x (strip t) e = true -> user_lines_plain e (strip t) = true -> (forall k, block_ok (u k) = true) ->
     regen_file path (fresh_x e) (on_disk u (items_of (fresh_x e))) = (on_disk u (items_of (fresh_x e)), []).
   Proof.
     intros H Hu' Hu. destruct (wf_fresh_file_inv _ (wf_fresh_x e H Hu')) as (Ok & Pa & Wf).
@@ -87,7 +87,7 @@ Proof. vm_compute. reflexivity. Qed.
 Theorem nodup_keys_py e : NoDup (keys07 e (strip t_py)).
 Proof. rewrite keys_py_eq, !nil_of_nil. apply nodupb_NoDup. reflexivity. Qed.
 
-Definition names_ok_py (e : elements) : bool := names_ok_x e.
+Definition names_ok_py (e : elements) : bool := names_ok_x (strip t_py) e.
 Definition fresh_py (e : elements) : list string := fresh_x t_py e.
 
 Theorem wf_fresh_py e : names_ok_py e = true -> user_lines_plain e (strip t_py) = true -> wf_fresh_file (fresh_py e) = true.
@@ -124,7 +124,7 @@ Proof. vm_compute. reflexivity. Qed.
 Theorem nodup_keys_h e : NoDup (keys07 e (strip t_h)).
 Proof. rewrite keys_h_eq, !nil_of_nil. apply nodupb_NoDup. reflexivity. Qed.
 
-Definition names_ok_h (e : elements) : bool := names_ok_x e.
+Definition names_ok_h (e : elements) : bool := names_ok_x (strip t_h) e.
 Definition fresh_h (e : elements) : list string := fresh_x t_h e.
 
 Theorem wf_fresh_h e : names_ok_h e = true -> user_lines_plain e (strip t_h) = true -> wf_fresh_file (fresh_h e) = true.
